@@ -4,8 +4,11 @@ Require Import EV.Base.Tac EV.Base.Bytes EV.Base.Res EV.Base.ListX.
 Require Import EV.Model.Arith64 EV.Model.Types EV.Model.Layout EV.Model.Ser EV.Model.Deser EV.Model.Header EV.Model.Loader.
 Require Import EV.Proofs.LoaderP.
 
-(* The loaders as sequences of resource steps over a ledger of live resources (Model/Loader.v).
-   A successful load leaves exactly one more live resource -- the backend owned by the returned
+(* The loaders as the sequences of their ownership-relevant steps (Model/Loader.v, [loader_steps]:
+   fallible operations, acquisitions into locals, the write of the backend into the MaybeUninit
+   case, arming and disarming of the BackendGuard), run over a ledger of live resources with the
+   unwinding rules of Rust: locals are dropped on every exit, the contents of the MaybeUninit only by
+   an armed guard.  A successful load leaves exactly one more live resource -- the backend owned by the returned
    case -- and dropping the case releases exactly that resource: *)
 Theorem C09_success_then_release_once :
   forall (l : loader) (n : N) (live : list resource),
@@ -17,8 +20,26 @@ Proof. exact ledger_success. Qed.
    wrong type, corrupt or truncated file, by error or by panic) leaves the ledger as it was: *)
 Theorem C09_failure_leaks_nothing :
   forall (l : loader) (n : N) (s : stop) (live : list resource),
-    s <> SNone -> load_ledger l n s live = (live, false).
+    can_stop l s = true -> load_ledger l n s live = (live, false).
 Proof. exact ledger_failure. Qed.
+
+(* [can_stop]: every fallible step of each loader (computed from the step lists) *)
+Theorem C09_stop_points :
+  List.map (fun l => List.map (can_stop l) [SMetadata; SOpen; SAcquire; SReadFile; SFreeze; SDeser; SNone]) [LFull; LMem; LMmap; LMap] =
+  [[false; true; false; false; false; true; false];
+   [true; true; true; true; false; true; false];
+   [true; true; true; true; true; true; false];
+   [true; true; true; false; false; true; false]].
+Proof. exact can_stop_table. Qed.
+
+(* The model discriminates: the step lists of the pinned tree (no guard, defect D6) leak the backend
+   when deserialization fails, and so does disarming the guard too early (seeded change C09-a). *)
+Theorem C09_refuted_without_guard :
+  forall n live,
+    ledger_of (loader_steps_pinned LMem n) SDeser live = (RHeap (capacity LMem n) :: live, false) /\
+    ledger_of (loader_steps_pinned LMmap n) SDeser live = (RMapping (capacity LMmap n) :: live, false) /\
+    ledger_of (loader_steps_pinned LMap n) SDeser live = (RMapping n :: live, false).
+Proof. exact ledger_pinned_leaks. Qed.
 
 Theorem C09_load_full_holds_nothing :
   forall (n : N) (s : stop) (live : list resource), fst (load_ledger LFull n s live) = live.
@@ -31,4 +52,6 @@ Proof. exact ledger_full. Qed.
 
 Print Assumptions C09_success_then_release_once.
 Print Assumptions C09_failure_leaks_nothing.
+Print Assumptions C09_stop_points.
+Print Assumptions C09_refuted_without_guard.
 Print Assumptions C09_load_full_holds_nothing.
